@@ -8,7 +8,7 @@ RULE = ("case = propagator-level model + `min <view>` / `max <view>` (decision v
         "views); the iterating sequence must equal the model's, be strictly improving, consist of solutions, and end at the brute-force "
         "optimum; Ok iff satisfiable. Root-LP step off (hook H5); a second family runs with the LP step ON and is judged by the same oracle (known finding D10)")
 def lp_on(tier, rng):
-    return [c + " ; lp" for c in ec.gen_models(ec.entry_opt, 1500, 300000)(tier, rng)]
+    return [c + " ; lp" for c in ec.gen_models(ec.entry_opt, 6000, 300000)(tier, rng)]
 def split_lp(model_line):
     from ..core import default_split
     m, s, cls = default_split(model_line)
@@ -44,8 +44,34 @@ def corr_lp(case, impl, mpart):
     return impl.endswith(" lp=1") == lp_gate(case)
 def judge_lp(case, impl, spec):
     return plevel.judge_solve(case, impl[:-5] if impl.endswith(" lp=1") else impl, spec)
+def gen_deadends(tier, rng):
+    """branch-and-bound under incomplete propagation: 4-6 small variables tied by 2-4 linear equalities with coefficients
+    of magnitude 2-3 (parity clashes that bounds propagation only sees after branching), built around a witness so that most
+    models are satisfiable.  Dead-end subtrees under an incumbent cut are frequent here; the objective is a plain variable or
+    its negation.  (seeded change C04_fresh_node_skips_cut was caught by 1 of 2957 generic cases only)"""
+    cases = []
+    for _ in range(20000 if tier == "quick" else 300000):
+        nv = rng.choice([4, 5, 5, 6])
+        los = [rng.randint(-2, 1) for _ in range(nv)]
+        his = [lo + rng.choice([1, 1, 2, 3, 3]) for lo in los]
+        o = rng.choice([nv - 1, nv - 1, nv - 2, rng.randrange(nv)])     # objective late in the branching order: right siblings
+        his[o] = los[o] + rng.choice([3, 4, 5, 6])                     # higher up still contain every objective value
+        w = [rng.randint(lo, hi) for lo, hi in zip(los, his)]
+        props = []
+        for _ in range(rng.choice([2, 3, 3, 4])):
+            k = rng.choice([2, 3, 3])
+            xs = rng.sample(range(nv), k)
+            cs = [rng.choice([-3, -2, -2, -1, 1, 1, 2, 2, 3]) for _ in xs]
+            K = sum(c * w[x] for c, x in zip(cs, xs))
+            if rng.random() < 0.15: K += rng.choice([-1, 1])          # some infeasible / shifted rows
+            props.append("%s %s %s %d" % (rng.choice(["lineq", "lineq", "lineq", "linle"]), ",".join(map(str, cs)), ",".join("x%d" % x for x in xs), K))
+        obj = rng.choice(["x%d", "opp(x%d)"]) % o
+        cases.append(" ; ".join(["|".join("%d..%d" % (lo, hi) for lo, hi in zip(los, his))] + props + ["%s %s" % (rng.choice(["min", "max"]), obj)]))
+    return cases
+
 FAMILIES = [
-    Family("opt_random", "solve", ec.gen_models(ec.entry_opt, 3000, 600000), nontrivial=ec.nontrivial_solve, prop_judge=plevel.judge_solve),
+    Family("opt_random", "solve", ec.gen_models(ec.entry_opt, 12000, 600000), nontrivial=ec.nontrivial_solve, prop_judge=plevel.judge_solve),
+    Family("opt_deadends", "solve", gen_deadends, nontrivial=ec.nontrivial_solve, prop_judge=plevel.judge_solve),
     Family("opt_structured", "solve", lambda tier, rng: [c for c in ec.structured(tier, rng) if " max " in c or " min " in c], nontrivial=ec.nontrivial_solve, prop_judge=plevel.judge_solve),
     Family("opt_lp_on", "solve", lp_on, split=split_lp, nontrivial=ec.nontrivial_solve, prop_judge=judge_lp),
 ]
